@@ -209,7 +209,13 @@ func decodeBatchRecords(batch []byte, topic string, partition int32) ([]Record, 
 
 	recordsData := batch[recordBatchHeaderLen:]
 	reader := bytes.NewReader(recordsData)
-	records := make([]Record, 0, recordCount)
+	// recordCount is client-controlled: never pre-allocate more than the bytes can
+	// hold (a record takes at least 7 bytes).
+	capHint := int64(recordCount)
+	if maxRecords := int64(len(recordsData)/7 + 1); capHint > maxRecords {
+		capHint = maxRecords
+	}
+	records := make([]Record, 0, capHint)
 	for i := int32(0); i < recordCount; i++ {
 		record, err := decodeRecord(reader, baseOffset, firstTimestamp, topic, partition)
 		if err != nil {
@@ -227,6 +233,9 @@ func decodeRecord(reader *bytes.Reader, baseOffset int64, baseTimestamp int64, t
 	}
 	if length < 0 {
 		return Record{}, fmt.Errorf("invalid record length")
+	}
+	if int(length) > reader.Len() {
+		return Record{}, fmt.Errorf("record length %d exceeds remaining batch bytes %d", length, reader.Len())
 	}
 
 	recordData := make([]byte, length)
@@ -271,6 +280,10 @@ func decodeRecord(reader *bytes.Reader, baseOffset int64, baseTimestamp int64, t
 	if err != nil {
 		return Record{}, err
 	}
+	// every header takes at least 2 bytes
+	if headerCount < 0 || int(headerCount) > buf.Len() {
+		return Record{}, fmt.Errorf("invalid header count %d", headerCount)
+	}
 	headers := make([]Header, 0, headerCount)
 	for i := int32(0); i < headerCount; i++ {
 		headerKeyLen, err := readVarint(buf)
@@ -311,6 +324,9 @@ func parseIndex(data []byte) ([]indexEntry, error) {
 		return nil, fmt.Errorf("invalid index magic")
 	}
 	entryCount := int(binary.BigEndian.Uint32(data[6:10]))
+	if entryCount > (len(data)-16)/12 {
+		return nil, fmt.Errorf("index entry out of bounds")
+	}
 	entries := make([]indexEntry, 0, entryCount)
 	offset := 16
 	for i := 0; i < entryCount; i++ {
@@ -359,6 +375,9 @@ func zigZagDecode(value int32) int32 {
 func readNullableBytes(reader *bytes.Reader, length int32) ([]byte, error) {
 	if length < 0 {
 		return nil, nil
+	}
+	if int(length) > reader.Len() {
+		return nil, io.ErrUnexpectedEOF
 	}
 	data := make([]byte, length)
 	if _, err := io.ReadFull(reader, data); err != nil {
